@@ -92,10 +92,22 @@ def np_nansum(ex, st, args, kwargs, node):
     raise Unsupported("np.nansum form")
 
 
+def rsum_def():
+    """definition of the spec function RSUM(e, j) = e[0] + ... + e[j-1] (primitive recursion on j, for every real
+    vector e: a conservative extension).  The ASSUMED contract of np.sum is `np.sum(v) == RSUM(v, len(v))`."""
+    AR = z3.ArraySort(INT, REAL)
+    e = z3.Const("rs_e", AR)
+    j = z3.Int("rs_j")
+    return z3.And(z3.ForAll([e], RSUM(e, 0) == 0, patterns=[RSUM(e, 0)]),
+                  z3.ForAll([e, j], z3.Implies(j >= 0, RSUM(e, j + 1) == RSUM(e, j) + z3.Select(e, j)),
+                            patterns=[RSUM(e, j + 1)]))
+
+
 @external("numpy.sum")
 def np_sum(ex, st, args, kwargs, node):
     v = args[0]
     if isinstance(v, SList) and v.elem == "real" and not kwargs:
+        st.assume(rsum_def())
         return RSUM(ex.named(v.arr), lift(v.length, INT))
     raise Unsupported("np.sum form")
 
@@ -228,8 +240,10 @@ contract(G + "opf_accuracy", params={"labels": "list[int]", "preds": "list[int]"
          defs=lambda v: [("err_defs", err_defs(v.labels.arr, v.preds.arr)), ("cnt_def", cnt_def(v.labels.arr)),
                          ("maxp1_def", maxp1_def(v.labels))],
          lemmas=[("before:errors[:, 1] /= counts", "cnt_bounds", lambda v: {"arr": v.labels}),
-                 ("before:errors[:, 1] /= counts", "err_bounds", lambda v: {"lab": v.labels, "prd": v.preds})],
-         assumes=[("after:errors = np.nansum(errors, axis=1)", lambda v, old: rsum_axiom_instances(v.errors, v.n_class))],
+                 ("before:errors[:, 1] /= counts", "err_bounds", lambda v: {"lab": v.labels, "prd": v.preds}),
+                 # bounds / zero test of the sum of the K summands: proved from the definition of RSUM (np.sum's contract)
+                 ("after:accuracy = 1 - np.sum(errors) / (2 * n_class)", "rsum_bounds",
+                  lambda v: {"e": v.errors, "_at": [lift(v.n_class, INT)]})],
          late_hints=[("before:errors[:, 1] /= counts", lambda v, old: [
              ("classes_0_and_1_present", conj(ge(CNT(v.labels.arr, 0, lift(length(v.labels), INT)), 1),
                                               ge(CNT(v.labels.arr, 1, lift(length(v.labels), INT)), 1))),
@@ -318,31 +332,91 @@ contract(G + "opf_accuracy_per_label", params={"labels": "list[int]", "preds": "
 
 # ---------------------------------------------------------------- purity = (sum over predicted groups of the largest true class) / N
 
+# PURE_GROUP(lab, prd, n, b, a): every one of the first n samples predicted as b has true class a  (defined predicate)
+PUREP = z3.Function("PURE_GROUP", AI, AI, INT, INT, INT, z3.BoolSort())
+_M2 = z3.ArraySort(INT, z3.ArraySort(INT, REAL))
+COLAT = z3.Function("COLMAX_AT", _M2, INT, AI)      # the arg-max rows of np.max(.., axis=0) (see the numpy.max contract)
+
+
+def pure_def(lab, prd, n):
+    b, a, t = z3.Ints("pg_b pg_a pg_t")
+    return z3.ForAll([b, a], PUREP(lab, prd, n, b, a) == z3.ForAll(
+        [t], z3.Implies(z3.And(t >= 0, t < n, z3.Select(prd, t) == b), z3.Select(lab, t) == a), patterns=[z3.Select(prd, t)]),
+        patterns=[PUREP(lab, prd, n, b, a)])
+
+
+def _groups_pure(v):
+    """every predicted group contains samples of a single true class (the first conjunct is trivially true and only
+    gives the instantiation engine a term that mentions b)"""
+    n, K = lift(length(v.labels), INT), K_of(v)
+    la, pa = v.labels.arr, v.preds.arr
+    return forall(0, K, lambda b: conj(ge(CNT(pa, b, n), 0), exists(0, K, lambda a: PUREP(la, pa, n, b, a))))
+
+
+def _colcnt_vec(v):
+    from pyvc.engine import SList as _SList
+    return _SList(COLCNTV(v.preds.arr, lift(length(v.labels), INT)), K_of(v), "real")
+
+
+def _purity_hints(v, old):
+    n, K = lift(length(v.labels), INT), K_of(v)
+    la, pa = v.labels.arr, v.preds.arr
+    cm = v.g_colmax
+    cc = _colcnt_vec(v)
+    S = RSUM(cm.arr, K)
+    AT = COLAT(v.c_matrix.arr, lift(v.c_matrix.nrows, INT))
+    at = lambda b: z3.Select(AT, b)
+    cnt = lambda b: CNT(pa, b, n)
+    return [
+        ("colmax_witness", forall(0, K, lambda b: conj(le(0, at(b)), lt(at(b), K),
+                                                       eq(realval(PAIR(la, pa, at(b), b, n)), cm[b])),
+                                  pats=lambda b: [cm[b], at(b), cnt(b)])),
+        ("colmax_le_group", forall(0, K, lambda b: conj(ge(cm[b], 0), le(cm[b], cc[b])))),
+        ("group_sizes_add_up", eq(RSUM(cc.arr, K), realval(n))),
+        ("sum_le_N", le(S, realval(n))),
+        ("first_pair", ge(PAIR(la, pa, v.labels[0], v.preds[0], n), 1)),
+        ("first_pair_counted", ge(cm[v.preds[0]], 1)),
+        ("sum_ge_1", ge(S, 1)),
+        ("sum_eq_N_iff_columns_full", iff(eq(S, realval(n)), forall(0, K, lambda b: eq(cm[b], cc[b])))),
+        ("pure_pair_full", forall(0, K, lambda b, a: implies(PUREP(la, pa, n, b, a), eq(PAIR(la, pa, a, b, n), cnt(b))),
+                                  pats=lambda b, a: [PUREP(la, pa, n, b, a)])),
+        ("full_gives_pure", forall(0, K, lambda b: implies(eq(cm[b], cc[b]), PUREP(la, pa, n, b, at(b))),
+                                   pats=lambda b: [cm[b], cnt(b)])),
+        ("pure_gives_full", forall(0, K, lambda b: implies(exists(0, K, lambda a: PUREP(la, pa, n, b, a)), eq(cm[b], cc[b])),
+                                   pats=lambda b: [cm[b], cnt(b)])),
+        ("one_iff_sum", iff(eq(S / realval(n), 1), eq(S, realval(n)))),
+    ]
+
+
+_PUR_ANCHOR = "after:_purity = np.sum(np.max(c_matrix, axis=0)) / len(labels)"
+
 contract(G + "purity", params={"labels": "list[int]", "preds": "list[int]", "return": "real"}, props=["C20"],
          requires=lambda v: labels_ok(v.labels, v.preds, K_of(v)),
-         defs=lambda v: [("pair_def", pair_def(v.labels.arr, v.preds.arr)), ("maxp1_def", maxp1_def(v.labels))],
+         defs=lambda v: [("pair_def", pair_def(v.labels.arr, v.preds.arr)), ("maxp1_def", maxp1_def(v.labels)),
+                         ("cnt_def", cnt_def(v.preds.arr)), ("colcnt_def", colcnt_def(v.preds.arr)), ("rsum_def", rsum_def()),
+                         ("pure_def", pure_def(v.labels.arr, v.preds.arr, lift(length(v.labels), INT)))],
          ensures=lambda v, old, result: [] if MODE.kind != "sym" else [
              ("formula", eq(result, RSUM(v.ghost("g_colmax", "list[real]").arr, lift(K_of(v), INT))
                             / realval(lift(length(v.labels), INT)))),
              ("colmax_upper", forall(0, K_of(v), lambda a, b: le(
                  PAIR(v.labels.arr, v.preds.arr, a, b, lift(length(v.labels), INT)), v.ghost("g_colmax", "list[real]")[b]))),
-             ("colmax_attained", forall(0, K_of(v), lambda b: exists(0, K_of(v), lambda a: eq(
-                 realval(PAIR(v.labels.arr, v.preds.arr, a, b, lift(length(v.labels), INT))),
-                 v.ghost("g_colmax", "list[real]")[b])))),
+             # (the first conjunct is there to name the column outside the existential: a ground term for the triggers)
+             ("colmax_attained", forall(0, K_of(v), lambda b: conj(
+                 ge(v.ghost("g_colmax", "list[real]")[b], 0),
+                 exists(0, K_of(v), lambda a: eq(
+                     realval(PAIR(v.labels.arr, v.preds.arr, a, b, lift(length(v.labels), INT))),
+                     v.ghost("g_colmax", "list[real]")[b]),
+                     pats=lambda a: [PAIR(v.labels.arr, v.preds.arr, a, b, lift(length(v.labels), INT))])))),
+             # the property statement: purity lies in (0, 1] and is 1 exactly when every predicted group is pure
+             ("range", conj(gt(result, 0), le(result, 1))),
+             ("one_iff_pure_groups", iff(eq(result, 1), _groups_pure(v))),
          ],
+         lemmas=[(_PUR_ANCHOR, "pair_bounds", lambda v: {"lab": v.labels, "prd": v.preds, "_at": [lift(length(v.labels), INT)]}),
+                 (_PUR_ANCHOR, "colcnt_total", lambda v: {"prd": v.preds, "K": K_of(v), "_at": [lift(length(v.labels), INT)]}),
+                 (_PUR_ANCHOR, "rsum_bounds", lambda v: {"e": v.g_colmax, "_at": [K_of(v)]}),
+                 (_PUR_ANCHOR, "rsum_le", lambda v: {"e": v.g_colmax, "f": _colcnt_vec(v), "_at": [K_of(v)]})],
+         late_hints=[(_PUR_ANCHOR, _purity_hints)],
          ghost=[("after:c_matrix = confusion_matrix(labels, preds)", "g_colmax = np.max(c_matrix, axis=0)")])
-
-
-def rsum_axiom_instances(e, n):
-    """ASSUMED contract of np.sum on the float vector e[0..n): bounds are preserved, and a sum of non-negative terms is 0
-    exactly when every term is 0 (instantiated for this vector; listed in the trusted base)"""
-    S = RSUM(e.arr, lift(n, INT))
-    return [
-        ("np.sum: termwise bounds 0..2 give 0 .. 2n", implies(forall(0, n, lambda c: conj(ge(e[c], 0), le(e[c], 2))),
-                                                              conj(ge(S, 0), le(S, 2 * realval(lift(n, INT)))))),
-        ("np.sum: a sum of non-negative terms is 0 iff all are 0", implies(forall(0, n, lambda c: ge(e[c], 0)),
-                                                                           iff(eq(S, 0), forall(0, n, lambda c: eq(e[c], 0))))),
-    ]
 
 
 def _err_concl(lab, prd, k):
@@ -420,3 +494,144 @@ def _subst(e, env):
 
 
 STATICS["normalize"] = _normalize_static
+
+
+# ---------------------------------------------------------------- sums: lemmas about RSUM (induction on the length)
+
+def _unfold_rsum(a, k):
+    return implies(ge(k, 1), RSUM(a, k) == RSUM(a, k - 1) + z3.Select(a, k - 1))
+
+
+def _rsum_concl(e, k):
+    a = e.arr
+    c = z3.Int("rb_c")
+    S = RSUM(a, k)
+    rng = z3.And(c >= 0, c < k)
+    nonneg = z3.ForAll([c], z3.Implies(rng, z3.Select(a, c) >= 0), patterns=[z3.Select(a, c)])
+    return z3.And(
+        z3.Implies(z3.ForAll([c], z3.Implies(rng, z3.And(z3.Select(a, c) >= 0, z3.Select(a, c) <= 2)),
+                             patterns=[z3.Select(a, c)]),
+                   z3.And(S >= 0, S <= 2 * z3.ToReal(k))),
+        z3.Implies(nonneg, z3.And(
+            S >= 0,
+            (S == 0) == z3.ForAll([c], z3.Implies(rng, z3.Select(a, c) == 0), patterns=[z3.Select(a, c)]),
+            z3.ForAll([c], z3.Implies(rng, z3.Select(a, c) <= S), patterns=[z3.Select(a, c)]))))
+
+
+lemma("rsum_bounds", params={"e": "list[real]"}, props=["C20"],
+      hyp=lambda e: [("rsum_def", rsum_def()), ("len", ge(length(e), 0))],
+      concl=lambda e, k: _rsum_concl(e, k),
+      hints=lambda e, k: [("unfold", _unfold_rsum(e.arr, k)), ("base", implies(eq(k, 0), RSUM(e.arr, k) == 0)),
+                          ("pred", implies(ge(k, 1), _rsum_concl(e, k - 1)))],
+      lo=lambda e: 0, hi=lambda e: length(e) + 1)
+
+
+def _rsum_le_concl(e, f, k):
+    a, b = e.arr, f.arr
+    c = z3.Int("rl_c")
+    rng = z3.And(c >= 0, c < k)
+    return z3.Implies(
+        z3.ForAll([c], z3.Implies(rng, z3.Select(a, c) <= z3.Select(b, c)), patterns=[z3.Select(a, c), z3.Select(b, c)]),
+        z3.And(RSUM(a, k) <= RSUM(b, k),
+               (RSUM(a, k) == RSUM(b, k)) == z3.ForAll([c], z3.Implies(rng, z3.Select(a, c) == z3.Select(b, c)),
+                                                       patterns=[z3.Select(a, c), z3.Select(b, c)])))
+
+
+lemma("rsum_le", params={"e": "list[real]", "f": "list[real]"}, props=["C20"],
+      hyp=lambda e, f: [("rsum_def", rsum_def()), ("len", ge(length(e), 0))],
+      concl=lambda e, f, k: _rsum_le_concl(e, f, k),
+      hints=lambda e, f, k: [("unfold_e", _unfold_rsum(e.arr, k)), ("unfold_f", _unfold_rsum(f.arr, k)),
+                             ("base", implies(eq(k, 0), z3.And(RSUM(e.arr, k) == 0, RSUM(f.arr, k) == 0))),
+                             ("pred", implies(ge(k, 1), _rsum_le_concl(e, f, k - 1)))],
+      lo=lambda e, f: 0, hi=lambda e, f: length(e) + 1)
+
+
+# the vector of predicted-group sizes: COLCNTV(prd, i)[b] = #{t < i : prd[t] = b}   (a defined ghost vector)
+COLCNTV = z3.Function("COLCNTV", AI, INT, z3.ArraySort(INT, REAL))
+
+
+def colcnt_def(prd):
+    i, b = z3.Ints("cc_i cc_b")
+    return z3.ForAll([i, b], z3.Select(COLCNTV(prd, i), b) == z3.ToReal(CNT(prd, b, i)),
+                     patterns=[z3.Select(COLCNTV(prd, i), b)])
+
+
+def _cc_hyp(prd):
+    return [("rsum_def", rsum_def()), ("cnt_def", cnt_def(prd.arr)), ("colcnt_def", colcnt_def(prd.arr))]
+
+
+# sum over the first j groups of the sizes after i items
+def _T(prd, i, j):
+    return RSUM(COLCNTV(prd.arr, i), j)
+
+
+lemma("colcnt_zero", params={"prd": "list[int]", "K": "int"}, props=["C20"],
+      hyp=lambda prd, K: _cc_hyp(prd) + [("K", ge(K, 0))],
+      concl=lambda prd, K, k: _T(prd, 0, k) == 0,
+      hints=lambda prd, K, k: [("unfold", _unfold_rsum(COLCNTV(prd.arr, 0), k)),
+                               ("entry", implies(ge(k, 1), z3.Select(COLCNTV(prd.arr, 0), k - 1) == 0))],
+      lo=lambda prd, K: 0, hi=lambda prd, K: K + 1)
+
+
+def _cc_step_concl(prd, i, k):
+    pi = z3.Select(prd.arr, i)
+    return z3.Implies(i >= 0, _T(prd, i + 1, k) == _T(prd, i, k) + z3.If(z3.And(pi >= 0, pi < k), 1.0, 0.0))
+
+
+lemma("colcnt_step", params={"prd": "list[int]", "K": "int", "i": "int"}, props=["C20"],
+      hyp=lambda prd, K, i: _cc_hyp(prd) + [("K", ge(K, 0))],
+      concl=lambda prd, K, i, k: _cc_step_concl(prd, i, k),
+      hints=lambda prd, K, i, k: [
+          ("unfold_new", _unfold_rsum(COLCNTV(prd.arr, i + 1), k)), ("unfold_old", _unfold_rsum(COLCNTV(prd.arr, i), k)),
+          ("base", implies(eq(k, 0), z3.And(_T(prd, i + 1, k) == 0, _T(prd, i, k) == 0))),
+          ("entry", implies(conj(ge(k, 1), ge(i, 0)),
+                            z3.Select(COLCNTV(prd.arr, i + 1), k - 1) == z3.Select(COLCNTV(prd.arr, i), k - 1)
+                            + z3.If(z3.Select(prd.arr, i) == k - 1, 1.0, 0.0))),
+          ("pred", implies(ge(k, 1), _cc_step_concl(prd, i, k - 1)))],
+      lo=lambda prd, K, i: 0, hi=lambda prd, K, i: K + 1)
+
+
+lemma("colcnt_total", params={"prd": "list[int]", "K": "int"}, props=["C20"],
+      hyp=lambda prd, K: _cc_hyp(prd) + [("K", ge(K, 0)),
+                                         ("in_range", forall(0, length(prd), lambda t: conj(le(0, prd[t]), lt(prd[t], K))))],
+      concl=lambda prd, K, k: _T(prd, k, K) == z3.ToReal(k),
+      uses=[("colcnt_zero", lambda prd, K, k: {"prd": prd, "K": K}),
+            ("colcnt_step", lambda prd, K, k: {"prd": prd, "K": K, "i": k - 1})],
+      hints=lambda prd, K, k: [("zero", _T(prd, 0, K) == 0),
+                               ("step", implies(ge(k, 1), _T(prd, k, K) == _T(prd, k - 1, K) + 1))],
+      lo=lambda prd, K: 0, hi=lambda prd, K: length(prd) + 1)
+
+
+def _pair_concl(lab, prd, k):
+    la, pa = lab.arr, prd.arr
+    a, b, t = z3.Ints("pb_a pb_b pb_t")
+    rng = z3.And(t >= 0, t < k)
+    P = PAIR(la, pa, a, b, k)
+    C = CNT(pa, b, k)
+    return z3.ForAll([a, b], z3.And(
+        P >= 0, P <= C,
+        (P == C) == z3.ForAll([t], z3.Implies(z3.And(rng, z3.Select(pa, t) == b), z3.Select(la, t) == a),
+                              patterns=[z3.Select(pa, t)]),
+        z3.Implies(z3.Exists([t], z3.And(rng, z3.Select(la, t) == a, z3.Select(pa, t) == b)), P >= 1)),
+        patterns=[P])
+
+
+def _pair_unfold(lab, prd, k):
+    la, pa = lab.arr, prd.arr
+    a, b = z3.Ints("pu_a pu_b")
+    return implies(ge(k, 1), z3.ForAll([a, b], z3.And(
+        PAIR(la, pa, a, b, k) == PAIR(la, pa, a, b, k - 1) + z3.If(z3.And(z3.Select(la, k - 1) == a, z3.Select(pa, k - 1) == b), 1, 0),
+        CNT(pa, b, k) == CNT(pa, b, k - 1) + z3.If(z3.Select(pa, k - 1) == b, 1, 0)),
+        patterns=[PAIR(la, pa, a, b, k)]))
+
+
+lemma("pair_bounds", params={"lab": "list[int]", "prd": "list[int]"}, props=["C20"],
+      hyp=lambda lab, prd: [("pair_def", pair_def(lab.arr, prd.arr)), ("cnt_def", cnt_def(prd.arr)), ("len", ge(length(lab), 0))],
+      concl=lambda lab, prd, k: _pair_concl(lab, prd, k),
+      hints=lambda lab, prd, k: [
+          ("unfold", _pair_unfold(lab, prd, k)),
+          ("base", implies(eq(k, 0), z3.ForAll([z3.Int("pu_a"), z3.Int("pu_b")], z3.And(
+              PAIR(lab.arr, prd.arr, z3.Int("pu_a"), z3.Int("pu_b"), k) == 0, CNT(prd.arr, z3.Int("pu_b"), k) == 0),
+              patterns=[PAIR(lab.arr, prd.arr, z3.Int("pu_a"), z3.Int("pu_b"), k)]))),
+          ("pred", implies(ge(k, 1), _pair_concl(lab, prd, k - 1)))],
+      lo=lambda lab, prd: 0, hi=lambda lab, prd: length(lab) + 1)
